@@ -53,7 +53,9 @@ for pf in sorted(glob.glob(os.path.join(ROOT, "props", "C*.json"))):
     pid = os.path.basename(pf)[:-5]
     if pid in written:
         body = open(written[pid]).read().strip()
-        body = re.sub(r"^(#+) ", lambda m: "#" * (len(m.group(1)) + 2) + " ", body, flags=re.M)
+        first = re.search(r"^(#+) ", body, flags=re.M)
+        shift = 3 - (len(first.group(1)) if first else 1)  # the note's first heading becomes a ### heading
+        body = re.sub(r"^(#+) ", lambda m: "#" * max(3, len(m.group(1)) + shift) + " ", body, flags=re.M)
         out += [body, ""]
         continue
     # no hand-written note: summarise from props/<id>.json and known_findings/<id>.json
